@@ -179,6 +179,8 @@ def show_c(t):
         return '_%d' % t[1]
     if k == 'const':
         return str(t[1])
+    if k == 'constdef':
+        return t[1].split('::', 1)[-1] if t[1].startswith('std::') else t[1]
     return str(t)
 
 
@@ -213,3 +215,54 @@ def fn_paths(ctx, f, **kw):
     ps = list(f.enum_paths(**kw))
     ctx.paths += len(ps)
     return ps
+
+
+def path_stream(f, path, decs):
+    """ordered events of a path, merging effects and branch decisions:
+       ('atom', atom, switch_block) entries are interleaved with path_effects entries"""
+    out = []
+    ptr = 0
+    decs = list(decs)
+    for b in path:
+        out.extend(path_effects(f, (b,)))
+        t = f.term(b)
+        if t['k'] == 'switch' and ptr < len(decs) and decs[ptr][0] == b:
+            (_, a), = path_atoms(f, path, [decs[ptr]])
+            out.append(('atom', a, b))
+            ptr += 1
+    return out
+
+
+def path_ret(f, path):
+    """tree of the value returned on this path (last definition of _0 on the path)"""
+    last = None
+    for b in path:
+        for i, st in enumerate(f.stmts(b)):
+            if st['k'] == 'assign' and st['p']['l'] == 0 and not st['p']['pr']:
+                last = f.expr_rvalue(st['r'], b, i)
+        t = f.term(b)
+        if t['k'] == 'call' and t['dest']['l'] == 0 and not t['dest']['pr']:
+            s = Site(f, b, t)
+            last = ('call', s.name, tuple(f.expr_operand(a, b, 'T') for a in t['args']), b)
+    return last
+
+
+def call_outcomes(f, path, decs, callee):
+    """for each dynamic call of `callee` on the path, the first decision taken on its result:
+       list of (Site, variant-or-bool-or-None)"""
+    out = []
+    pending = None
+    for ev in path_stream(f, path, decs):
+        if ev[0] == 'c' and callee in ev[1].names():
+            if pending is not None:
+                out.append((pending, None))
+            pending = ev[1]
+        elif ev[0] == 'atom' and pending is not None:
+            a = ev[1]
+            if a[0] == 'is' and a[1][0] == 'call' and a[1][1] == pending.name:
+                out.append((pending, a[2])); pending = None
+            elif a[0] == 'bool' and a[1][0] == 'call' and a[1][1] == pending.name:
+                out.append((pending, a[2])); pending = None
+    if pending is not None:
+        out.append((pending, None))
+    return out
